@@ -17,8 +17,10 @@ VERIF = os.path.dirname(os.path.dirname(os.path.dirname(os.path.abspath(__file__
 REPO = os.environ.get("VERIF_REPO", "/repo")
 LEAN = os.path.join(VERIF, "lean")
 HARNESS = os.path.join(VERIF, "harness")
-EVIDENCE = os.path.join(VERIF, "evidence")
-REPLAYS = os.path.join(VERIF, "evidence", "replays")
+# VERIF_EVIDENCE redirects the evidence / replay files of a run (used by tools/seeded.py when it runs the checks
+# against scratch worktrees in parallel, so that those runs never overwrite the evidence of /repo itself)
+EVIDENCE = os.environ.get("VERIF_EVIDENCE") or os.path.join(VERIF, "evidence")
+REPLAYS = os.path.join(EVIDENCE, "replays")
 DRIVER_BIN = os.path.join(LEAN, ".lake", "build", "bin", "driver")
 ALLOWED_AXIOMS = {"propext", "Classical.choice", "Quot.sound"}
 GUARD = "NOSTR_RELAY_VERIF"
